@@ -89,6 +89,7 @@ def shards(tier):
 # helpers
 # ---------------------------------------------------------------------------------------------
 _XML = None
+_OTHER_T01 = None
 
 
 def _indexxml():
@@ -162,6 +163,22 @@ def check_rle(vals, num):
             flag('rle_query_between_adds_raise', 'after %d adds a query raised %s' % (k + 1, _exc(got)), exc=type(got).__name__)
         elif got[0] != k + 1 or not same(got[1], v) or not same(got[2], v):
             flag('rle_query_between_adds_wrong', 'after adds %r: (num_values, value(%d), last()) = %r' % (vals[:k + 1], k, got))
+    # a second object read in position order with two or three adds between the reads (a reader that keeps up with a writer)
+    obj2 = Rle.RLE()
+    unread = 0
+    for k, v in enumerate(vals):
+        ok, err = _call(obj2.add, v)
+        if not ok:
+            break
+        if k % 3 == 2 or k == n - 1:
+            while unread <= k:
+                ok, got = _call(obj2.value, unread)
+                if not ok or not same(got, vals[unread]):
+                    flag('rle_value_in_order_between_adds', 'values %r added, read in order with adds in between: value(%d) gives %r, expected %r'
+                         % (vals[:k + 1], unread, _exc(got) if not ok else got, vals[unread]))
+                    unread = n
+                    break
+                unread += 1
     canon = _canon(obj)
     zero_runs = any(s == 0 and r > 0 for _, s, r in canon)
     out = [canon]
@@ -405,7 +422,22 @@ def check_type01(recs):
         flag('type01_total_frames_raise', 'totalFrames() raised %s' % _exc(got), exc=type(got).__name__)
     elif got != len(owner):
         flag('type01_total_frames', 'totalFrames()=%r expected %d; runs %r' % (got, len(owner), shape))
+    # another index of the same class, alive at the same time and asked in between (two log passes of a file): a fixed three-run
+    # index whose last frames are asked for before every question put to this one
+    global _OTHER_T01
+    if _OTHER_T01 is None:
+        o = LRle.RLEType01('FEET')
+        for p_, f_, x_ in ((0, 2, 100.0), (100, 2, 99.0), (300, 3, 98.0), (700, 1, 96.5)):
+            o.add(p_, f_, x_)
+        _OTHER_T01 = (o, [(0, 0), (0, 1), (100, 0), (100, 1), (300, 0), (300, 1), (300, 2), (700, 0)])
+    other, other_owner = _OTHER_T01
     for fnum, exp in enumerate(owner):
+        ofn = (fnum * 3 + 5) % len(other_owner)
+        ok, got = _call(other.tellLrForFrame, ofn)
+        if not ok or tuple(got) != other_owner[ofn]:
+            flag('type01_other_index_disturbed', 'a second index alive at the same time: its tellLrForFrame(%d) gives %r, expected %r'
+                 % (ofn, _exc(got) if not ok else got, other_owner[ofn]))
+            break
         ok, got = _call(obj.tellLrForFrame, fnum)
         if not ok:
             flag('type01_tell_raise', 'tellLrForFrame(%d) raised %s, expected %r; runs %r' % (fnum, _exc(got), exp, shape),
